@@ -104,7 +104,9 @@ def WF (env : MEnv) : Bool :=
   delCatches env "." "delattr" ["AttributeError"] &&
   delCatches env "P" "handler" deleteHandlerExcs &&
   env.t.excTable.isSub "PathDeleteError" "PathAssignError" &&
-  env.t.excTable.isSub "PathDeleteError" "GlomError"
+  env.t.excTable.isSub "PathDeleteError" "GlomError" &&
+  env.t.excTable.isSub "PathDeleteError" "PathDeleteError" &&
+  env.t.excTable.isSub "PathAccessError" "PathAccessError"
 
 /-- the hypotheses of the wildcard-free theorems, as one decidable test -/
 def covered (env : MEnv) (orig : List Step) : Bool :=
